@@ -4,7 +4,7 @@ CFG = {'assumptions': ['f64 inputs cross the boundary as bit patterns and are de
                  'robust::orient2d returns the sign of the exact determinant (winding_order is compared '
                  'exactly, also on rounded far-from-origin rings)',
                  'polygon rings are closed (Polygon::new closes them; C18)'],
- 'count': {'quick': 40000, 'thorough': 1600000},
+ 'count': {'quick': 200000, 'thorough': 8000000},
  'lean_files': ['GeoModel/Area.lean', 'GeoModel/Winding.lean', 'GeoModel/SimpleRing.lean', 'GeoModel/Orient.lean',
                 'GeoModel/Ops/C05.lean', 'GeoProofs/Lemmas/C05Area.lean', 'GeoProofs/Lemmas/C05Winding.lean'],
  'rule': 'star-shaped (oblique, non-convex), two-sided histogram (rectilinear, collinear vertices) and junk '
@@ -24,7 +24,9 @@ CFG = {'assumptions': ['f64 inputs cross the boundary as bit patterns and are de
                   'GeoModel/SimpleRing.lean; that the lexicographically least vertex of a simple ring is '
                   'strictly convex (so the pivot orientation equals the sign of the area) is a spec-adequacy '
                   'assumption tied by correspondence, proved only for triangles',
-                  'the rounding tolerance of regime R is a stated bound, not a theorem']}
+                  'the rounding tolerance of regime R is a stated bound, not a theorem',
+                  'regime R: a polygon with holes whose exact exterior area is below the tolerance is a '
+                  'near-tie of the sign branch in Polygon::signed_area and is SKIPped (counted, ~0.4%)']}
 
 MANIFEST = {'note': 'Trusted: Lean 4.33 kernel (axioms propext, Classical.choice, Quot.sound only; audited per theorem '
          'each run; no sorry, no native_decide, no added axioms); the Lean compiler running the model; the '
@@ -43,8 +45,12 @@ MANIFEST = {'note': 'Trusted: Lean 4.33 kernel (axioms propext, Classical.choice
          '(|exterior| - sum |holes|), independent of hole windings, positive iff the exterior shoelace is '
          'positive when the holes do not outweigh it; unsigned = |signed|; Rect and Triangle areas equal '
          'those of their polygon form; MultiPolygon and GeometryCollection areas are the sums of their '
-         'members; orient returns each ring or its reverse, closed; winding_order None only for '
-         'short/open/all-equal/collinear-pivot rings. The real code is run on the same inputs: areas '
+         'members, and the whole geometry tree equals the unshifted-shoelace specification (area_eq_spec); '
+         'orient returns each ring or its reverse, closed, unsigned area unchanged; winding_order is '
+         'characterised by the exact determinant at the lexicographically least vertex, None only for '
+         'short/open/all-equal/collinear-pivot rings, equals the sign of the area for triangles; under the '
+         'hypothesis that the least point is not visited twice (_partial): reversal flips the winding, '
+         'orient yields the requested windings and is idempotent. The real code is run on the same inputs: areas '
          'bit-exact on integer grids (offsets to 2^27 and 1e8), within the stated rounding bound otherwise; '
          "winding and orient exact; the shoelace/sign/ring-set clauses are evaluated on the implementation's "
          'own outputs.'}
